@@ -101,6 +101,7 @@ def namespace():
             return b
         return real_where(c, a, b)
     ns['torch'].__dict__['where'] = where_
+    shim.WHERE_HOOK[0] = where_          # x.masked_fill(mask, nan) is a third spelling of the same guard
     np_ = ns['np'].__dict__
     np_['mgrid'] = _MGrid()
     np_['nan'] = float('nan')
